@@ -489,12 +489,10 @@ def check_rejection(item):
                 return []
         except Exception:
             return []  # rejected at construction: good
-        # deferred check: the first application must raise
-        try:
-            n = int(np.prod(R.ishape))
-            R(np.ones(n, dtype=np.complex128).reshape(R.ishape))
-        except Exception:
-            return []
+        # the misfit was not rejected when the operator was built: an operator now exists that advertises shapes although its
+        # operands do not fit (its adjoint / normal operator cannot be formed even if some application happens to broadcast)
+        fake = {"k": call, "a": tuple(args), "s": tuple(item["operands"])}
+        return [_viol(["C03"], "misfit_accepted", fake, "operands whose shapes do not fit were combined without an error (advertised %s<-%s)" % (R.oshape, R.ishape))]
         fake = {"k": call, "a": tuple(args), "s": tuple(item["operands"])}
         return [_viol(["C03"], "misfit_accepted", fake, "operands whose shapes do not fit were combined and applied without an error (advertised %s<-%s)" % (R.oshape, R.ishape))]
 
